@@ -97,6 +97,7 @@ Qed.
 Lemma recv_data_rw st c : rw_inv st -> not_dcep (c_p c) -> rw_inv (fst (recv_data st c)).
 Proof.
   intros (Hnd & Hdc & Hu) Hc. unfold recv_data.
+  destruct (negb (SctpState_eqb (r_conn st) SctpState_Connected)); [repeat split; assumption|].
   destruct (data_is_dup _); [repeat split; assumption|].
   destruct (_ && _).
   - rewrite (proc_not_dcep _ _ Hc). destruct (proc_data (r_app st) (c_p c)) as [a1 e1]. unfold rw_inv. cbn [fst r_rq r_used].
